@@ -10,12 +10,17 @@ namespace Poetry
 inductive PyErr where
   | value | assertion | index | key | recursion | notImplemented | type | attribute | runtime
   | fuel
+  /-- the grammar's syntax error (lark `UnexpectedInput`), the documented error of the marker/requirement grammars -/
+  | syntax
+  /-- the input leaves the fragment this model covers (never compared; counted by the harness) -/
+  | unmodelled
 deriving DecidableEq, Repr, Inhabited
 
 def PyErr.name : PyErr → String
   | .value => "value" | .assertion => "assertion" | .index => "index" | .key => "key"
   | .recursion => "recursion" | .notImplemented => "notimplemented" | .type => "type"
   | .attribute => "attribute" | .runtime => "runtime" | .fuel => "fuel"
+  | .syntax => "syntax" | .unmodelled => "unmodelled"
 
 abbrev PyM := Except PyErr
 
